@@ -34,10 +34,10 @@ def run(ctx):
         "RollbackChange do; rollback requests follow the specification's guard and reverse order (others only in the malformed stream)",
         "the ghost history of the model is compared per step with events reconstructed from the implementation's record diffs by "
         "ocaml/c20_check.ml (diff_events), which is trusted for the Order monitors"]
-    ctx.notes = ["open findings F-20a..F-20h (findings/C20.jsonl): Consistency and termination of spec/Config.tla do not hold for the v3 code "
+    ctx.notes = ["open findings F-20a,b,c,e,f,g,h (findings/C20.jsonl; F-20d repaired in /repo): Consistency and termination of spec/Config.tla do not hold for the v3 code "
                  "as it is; the theorems C20_*_refuted state that on the model, the corpus re-confirms each on the real code at every run",
                  "C20_commit_before_apply and C20_ordinal_mono are proved for all reachable worlds; Order as a whole is checked "
-                 "exhaustively only up to depth 8 inside Coq (C20_safety_bounded_partial) and monitored on the implementation"]
+                 "exhaustively only up to depth 7 inside Coq (C20_safety_bounded_partial) and monitored on the implementation"]
 
 
 def sharded_pipeline(ctx, exe, mcheck, shards, scen, steps):
